@@ -166,4 +166,62 @@ theorem setup_done_iff (cs : Consts K) (sqrtF : K → K) (poison : K) (st : ApiS
     by_cases hn : 0 < P.rows
     · simp [hn]
     · simp [hn]
+def matOk (M : Option (RawMat K)) (r c : Nat) : Prop := match M with | none => True | some M => M.rows = r ∧ M.cols = c
+def vecOk (v : Option (RawVec K)) (k : Nat) : Prop := match v with | none => True | some v => v.data.size = k
+
+/-- the dimension conditions `update` demands of the arguments that are passed (dense back end) -/
+def UpdateDimsOk (a : AnySolver K) (P : Option (RawMat K)) (c : Option (RawVec K))
+    (A : Option (RawMat K)) (b : Option (RawVec K)) (G : Option (RawMat K)) (h : Option (RawVec K))
+    (xlb xub : Option (RawVec K)) : Prop :=
+  matOk P a.n a.n ∧ matOk A a.p a.n ∧ matOk G a.m a.n ∧ vecOk c a.n ∧ vecOk b a.p ∧ vecOk h a.m ∧ vecOk xlb a.n ∧ vecOk xub a.n
+
+theorem orElse_none_iff {α : Type} (x y : Option α) : (x <|> y) = none ↔ x = none ∧ y = none := by
+  cases x <;> cases y <;> simp
+
+/-- **classification of `update` arguments is complete (dense back end)**: accepted exactly when every argument that is
+    passed has the dimensions of the set-up problem -/
+theorem validateUpdate_dense_none_iff (a : AnySolver K) (P : Option (RawMat K)) (c : Option (RawVec K))
+    (A : Option (RawMat K)) (b : Option (RawVec K)) (G : Option (RawMat K)) (h : Option (RawVec K))
+    (xlb xub : Option (RawVec K)) :
+    validateUpdate a false P c A b G h xlb xub = none ↔ UpdateDimsOk a P c A b G h xlb xub := by
+  unfold validateUpdate UpdateDimsOk
+  simp only [orElse_none_iff]
+  refine and_congr ?_ (and_congr ?_ (and_congr ?_ (and_congr ?_ (and_congr ?_ (and_congr ?_ (and_congr ?_ ?_))))))
+  · cases P with
+    | none => simp [matOk]
+    | some P => by_cases h1 : P.rows = a.n <;> by_cases h2 : P.cols = a.n <;> simp [matOk, h1, h2]
+  · cases A with
+    | none => simp [matOk]
+    | some M => by_cases h1 : M.rows = a.p <;> by_cases h2 : M.cols = a.n <;> simp [matOk, h1, h2]
+  · cases G with
+    | none => simp [matOk]
+    | some M => by_cases h1 : M.rows = a.m <;> by_cases h2 : M.cols = a.n <;> simp [matOk, h1, h2]
+  · cases c with
+    | none => simp [vecOk]
+    | some v => by_cases h1 : v.data.size = a.n <;> simp [vecOk, h1]
+  · cases b with
+    | none => simp [vecOk]
+    | some v => by_cases h1 : v.data.size = a.p <;> simp [vecOk, h1]
+  · cases h with
+    | none => simp [vecOk]
+    | some v => by_cases h1 : v.data.size = a.m <;> simp [vecOk, h1]
+  · cases xlb with
+    | none => simp [vecOk]
+    | some v => by_cases h1 : v.data.size = a.n <;> simp [vecOk, h1]
+  · cases xub with
+    | none => simp [vecOk]
+    | some v => by_cases h1 : v.data.size = a.n <;> simp [vecOk, h1]
+
+/-- `update` on a set-up dense solver succeeds exactly on dimension-consistent arguments; any other call is rejected
+    (and changes nothing: `rejected_is_identity`) -/
+theorem update_done_iff_dense (cs : Consts K) (sqrtF : K → K) (poison : K) (st : ApiState K) (a : AnySolver K)
+    (hs : st.sol = some a) (hd : a.s.be.isDense = true) (P : Option (RawMat K)) (c : Option (RawVec K))
+    (A : Option (RawMat K)) (b : Option (RawVec K)) (G : Option (RawMat K)) (h : Option (RawVec K))
+    (xlb xub : Option (RawVec K)) (reuse : Bool) :
+    (apiStep cs sqrtF poison st (.update P c A b G h xlb xub reuse)).2 = Outcome.done ↔ UpdateDimsOk a P c A b G h xlb xub := by
+  rw [← validateUpdate_dense_none_iff]
+  simp only [apiStep, hs, hd, Bool.not_true]
+  cases hv : validateUpdate a false P c A b G h xlb xub with
+  | some msg => simp
+  | none => simp
 end Piqp.C05
